@@ -246,12 +246,31 @@ pub fn real_schedule(sess_factory: &mut dyn FnMut() -> Option<Box<dyn Driver>>, 
                 let _ = sess.send(&Gui::Position { fen: Some(fen.clone()), moves: vec![] });
                 rep.count("stop_and_same_position_back_to_back");
             }
+            // ... or announces the next game right behind the stop (both found at one poll): the stop
+            // still ends this search
+            if rng.gen_bool(0.3) {
+                let _ = sess.send(&Gui::NewGame);
+                rep.count("stop_and_ucinewgame_back_to_back");
+            }
         } else {
             rep.count("movetime_expiry");
         }
         let out = match sess.await_bestmove(WATCHDOG) {
             Ok(o) => collect(o),
-            Err((WaitErr::Timeout, _)) => { rep.inconclusive("watchdog fired"); return; }
+            Err((WaitErr::Timeout, _)) => {
+                // Nothing for the whole watchdog period (minutes; a poll is due every 100 000 nodes,
+                // i.e. every fraction of a second). If a stop had been sent and a SECOND stop now ends
+                // the search at once, the first one was lost; otherwise the run says nothing.
+                if delay_us.is_some() {
+                    let _ = sess.send(&Gui::Stop);
+                    if sess.await_bestmove(Duration::from_secs(20)).is_ok() {
+                        rep.violation(&format!("stop-lost:{}", how), format!("{}: `go infinite` + stop (+ what followed it back to back) was not answered within {} s; a second stop was answered at once", fen, WATCHDOG.as_secs()), replay);
+                        return;
+                    }
+                }
+                rep.inconclusive("watchdog fired");
+                return;
+            }
             Err((WaitErr::Disconnected, _)) => { rep.violation("engine-dead-during-interrupted-search", format!("{}: output closed", fen), replay); return; }
         };
         rep.eval();
@@ -267,15 +286,21 @@ pub fn real_schedule(sess_factory: &mut dyn FnMut() -> Option<Box<dyn Driver>>, 
         }
         // a search with no time at all right after an interrupted one: its first iteration must still
         // complete (the poll counter restarts with every go), so it answers a legal move
-        if rng.gen_bool(0.3) {
-            let zero = GoSpec { movetime: Some(0), ..Default::default() };
+        if rng.gen_bool(0.4) {
+            // sometimes announced as a new game (the position is kept by `ucinewgame`; only tables and
+            // counters are reset) — whatever the interrupted search left behind must not leak into it
+            if rng.gen_bool(0.5) {
+                let _ = sess.send(&Gui::NewGame);
+                rep.count("ucinewgame_between_an_interrupted_search_and_the_next_go");
+            }
+            let zero = if rng.gen_bool(0.5) { GoSpec { movetime: Some(0), ..Default::default() } } else { GoSpec::depth(1) };
             match search(sess.as_mut(), None, &zero) {
                 Ok(o) => {
                     rep.eval();
                     rep.count("zero_budget_go_after_an_interrupted_search");
                     let legal: Vec<String> = p.legal_moves().iter().map(|m| m.uci()).collect();
                     if o.best.as_ref().map_or(true, |b| !legal.contains(b)) {
-                        rep.violation(&format!("go-after-interrupted-search-answers-no-legal-move:{}", how), format!("{}: after an interrupted search `go movetime 0` answered {:?}", fen, o.best), replay.clone());
+                        rep.violation(&format!("go-after-interrupted-search-answers-no-legal-move:{}", how), format!("{}: after an interrupted search `{}` answered {:?}", fen, Gui::Go(zero.clone()).text(), o.best), replay.clone());
                     }
                 }
                 Err(e) if e.starts_with("watchdog") => { rep.inconclusive("watchdog fired"); return; }
